@@ -81,7 +81,37 @@ func newWorld() *world { return &world{sm: lite.NewStrategyManager()} }
 type capReached struct{}
 
 // runs the real tryBackends over the real nextBackend closure; dial outcome by address set.
+// dial outcomes are a property of the backend, not of its spelling: close the ok set under "same address once
+// the default port is applied" (input generation only; keeps the trace deterministic for the random strategy)
+func normForOutcome(a string) string {
+	p, err := netutil.Parse(a, "tcp")
+	if err != nil {
+		return "!" + a
+	}
+	if _, port := netutil.HostPort(p); port == 0 {
+		return net.JoinHostPort(p.String(), "25565")
+	}
+	return p.String()
+}
+
+func closeOkSet(backends, okSet []string) []string {
+	okNorm := map[string]bool{}
+	for _, o := range okSet {
+		okNorm[normForOutcome(o)] = true
+	}
+	var out []string
+	seen := map[string]bool{}
+	for _, b := range backends {
+		if okNorm[normForOutcome(b)] && !seen[b] {
+			seen[b] = true
+			out = append(out, b)
+		}
+	}
+	return out
+}
+
 func (w *world) attempt(run *hx.Run, class string, strategy, host string, backends []string, okSet []string) {
+	okSet = closeOkSet(backends, okSet)
 	op := fmt.Sprintf("att %s %s %s %s %s", strategy, hx.HexS(host), hexList(backends), parseTable(backends), hexList(okSet))
 	var connected string
 	out := hx.Guard(guard, func() string {
